@@ -90,6 +90,18 @@ static QUARANTINE: std::sync::OnceLock<BTreeSet<String>> = std::sync::OnceLock::
 pub fn set_quarantine(q: &BTreeSet<String>) {
     let _ = QUARANTINE.set(q.clone());
 }
+static REPO_PATH: std::sync::OnceLock<String> = std::sync::OnceLock::new();
+pub fn set_repo_path(p: &str) {
+    let _ = REPO_PATH.set(p.trim_end_matches('/').to_string());
+}
+/// messages that quote a source location name the checkout under test: write it as `/repo`, so that
+/// signatures are the same for every checkout (`MMV_REPO`)
+pub fn repo_norm(s: &str) -> String {
+    match REPO_PATH.get() {
+        Some(p) if p != "/repo" && !p.is_empty() => s.replace(p.as_str(), "/repo"),
+        _ => s.to_string(),
+    }
+}
 /// is the named defect class listed in KNOWN_FINDINGS (passed by the driver)?
 pub fn q(name: &str) -> bool {
     QUARANTINE.get().is_some_and(|s| s.contains(name))
